@@ -168,6 +168,27 @@ class C11Bounded(Bounded):
             want = ['a=1 and not u="adm"', 'b=2 and not u="adm"']
             if sorted(got) != sorted(want):
                 fail("global+filter", f"a stream rule / global document (product windows) / rule / filter on category c via {route}: {got}, expected both rules narrowed by the filter: {want}", [route])
+        # rules with a LIST of conditions, also derived from the previous document (`action: repeat`): every rule is narrowed once, in every
+        # condition, and the caller's documents are not rewritten (the filter works on the rule, not on the parsed YAML it came from)
+        ldocs = [{"title": "a", "name": "a", "logsource": {"category": "c"}, "detection": {"sel": {"f": 1}, "other": {"g": 2}, "condition": ["sel", "other"]}},
+                 {"action": "repeat", "title": "b", "name": "b", "detection": {"sel": {"f": 3}}},
+                 {"title": "F", "logsource": {"category": "c"}, "filter": {"rules": "any", "x": {"u": "adm"}, "condition": "not x"}}]
+        for variant in ("list condition", "list condition + repeat", "loaded twice"):
+            ev += 1
+            nontriv += 1
+            docs = copy.deepcopy(ldocs if variant == "list condition + repeat" else [ldocs[0], ldocs[2]])
+            snapshot = copy.deepcopy(docs)
+            try:
+                got = b().convert(SigmaCollection.from_dicts(docs))
+                if variant == "loaded twice":
+                    got = b().convert(SigmaCollection.from_dicts(docs))
+            except Exception as e:
+                got = [f"{type(e).__name__}: {e}"]
+            want = ['f=1 and not u="adm"', 'g=2 and not u="adm"'] + (['f=3 and not u="adm"', 'g=2 and not u="adm"'] if variant == "list condition + repeat" else [])
+            if got != want:
+                fail("list-condition", f"rule(s) with a list of conditions and a filter ({variant}): {got}, expected every condition of every rule narrowed once: {want}", [variant])
+            elif variant != "list condition + repeat" and docs != snapshot:
+                fail("input-rewritten", f"from_dicts with a filter rewrote the caller's documents ({variant}): {[d.get('detection', {}).get('condition') for d in docs]}", [variant])
         return {"evaluations": ev, "distinct_nontrivial": nontriv, "failures": fails, "failure_counts": seen,
-                "bound": f"a filter after a global document (2 routes); all orders of three filters through seven routes; {len(rule_dets)} rule shapes x {len(filt_dets)} filter shapes x {len(logsources)} log source relations x {len(targets)} rule-list forms" + (" (every third)" if tier == "quick" else ""),
+                "bound": f"list-valued conditions with action repeat (3 variants); a filter after a global document (2 routes); all orders of three filters through seven routes; {len(rule_dets)} rule shapes x {len(filt_dets)} filter shapes x {len(logsources)} log source relations x {len(targets)} rule-list forms" + (" (every third)" if tier == "quick" else ""),
                 "rule": "distinct (rule, filter, log sources, target); non-trivial = the filter applies", "samples": samples, "exhaustive": tier != "quick"}
